@@ -415,6 +415,8 @@ class EventDispatcher(object):
                     message.body, type(e).__name__, str(e)
                 )
             )
+            # The message is done with, so forget it as well as acknowledging it.
+            self.unacknowledged_messages.pop(message.message_id, None)
             message.acknowledge(multiple=False)
 
     def acknowledge(self, id):
